@@ -102,6 +102,8 @@ def gen_SO3(tier, seed):
     out.append(('Rx(g)', ref.rotx(0.3)))
     out.append(('Ry(g)', ref.roty(-0.7)))
     out.append(('Rz(g)', ref.rotz(1.1)))
+    # one generic letter per arm of the matrix -> quaternion conversion: the rods below are x-dominant or depend on the seed, near-pi is z-dominant
+    out.append(('rod(ydom,0.9)', ref.rodrigues((0.1, 1, 0.3), 0.9)))
     for n, v in pick(G_VEC3, tier, seed, 2):
         out.append(('rod(%s,2.5)' % n, ref.rodrigues(v, 2.5)))
     out.append(('near-pi', ref.mp_rot((1, 2, 3), PI - 1e-9)))
